@@ -496,4 +496,364 @@ theorem out_raw_m_eq (z : Mpz) (h : z.WF) : out_raw_m z = outRawBytes z.toInt :=
       have h2 : ¬ z.toInt < 0 := fun hh => hsz (hneg.mp hh)
       simp [h1, h2]
 
+/-! ### raw input -/
+
+theorem fread_ok {r : List Nat} {n : Nat} (h : n ≤ r.length) : fread r n = (true, r.take n, r.drop n) := by
+  simp [fread, h]
+theorem fread_short {r : List Nat} {n : Nat} (h : r.length < n) : fread r n = (false, r, []) := by
+  have : ¬ n ≤ r.length := by omega
+  simp [fread, this]
+
+theorem limbsToBytes_drop (d : List Nat) (k : Nat) : (limbsToBytes d).drop (8 * k) = limbsToBytes (d.drop k) := by
+  induction k generalizing d with
+  | zero => simp
+  | succ k ih =>
+    cases d with
+    | nil => simp
+    | cons x xs =>
+      rw [limbsToBytes_cons, List.drop_succ_cons, ← ih xs]
+      have : 8 * (k + 1) = (leBytes 8 x).length + 8 * k := by simp; ring
+      rw [this, List.drop_append]
+      simp
+
+theorem limbsToBytes_take (d : List Nat) (k : Nat) : (limbsToBytes d).take (8 * k) = limbsToBytes (d.take k) := by
+  induction k generalizing d with
+  | zero => simp
+  | succ k ih =>
+    cases d with
+    | nil => simp
+    | cons x xs =>
+      rw [limbsToBytes_cons, List.take_succ_cons, limbsToBytes_cons, ← ih xs]
+      have : 8 * (k + 1) = (leBytes 8 x).length + 8 * k := by simp; ring
+      rw [this, List.take_append]
+      simp
+      exact List.take_of_length_le (by simp)
+
+/-- what `mpz_realloc` guarantees -/
+theorem realloc_spec {x : Mpz} (hx : x.WF) (n : Nat) {junk : Nat → Nat} (hj : ∀ i, junk i < B) :
+    (mpz_realloc x n junk).d.length = (mpz_realloc x n junk).alloc ∧ n ≤ (mpz_realloc x n junk).alloc ∧
+    Limbs (mpz_realloc x n junk).d := by
+  obtain ⟨hlen, hle, hlimbs, _⟩ := hx
+  unfold mpz_realloc
+  split
+  · refine ⟨by simp [hlen]; omega, by simp, ?_⟩
+    simp only
+    refine Limbs_append.mpr ⟨hlimbs, ?_⟩
+    intro y hy; rw [List.mem_map] at hy; obtain ⟨i, _, rfl⟩ := hy; exact hj i
+  · exact ⟨hlen, by omega, hlimbs⟩
+
+theorem Limbs_set {d : List Nat} (h : Limbs d) (i v : Nat) (hv : v < B) : Limbs (d.set i v) := by
+  intro y hy
+  rcases List.mem_or_eq_of_mem_set hy with h1 | h1
+  · exact h _ h1
+  · rw [h1]; exact hv
+
+theorem overwrite_length {m data : List Nat} {off : Nat} (h : off + data.length ≤ m.length) :
+    (overwrite m off data).length = m.length := by
+  simp [overwrite]; omega
+
+theorem overwrite_bytes {m data : List Nat} {off : Nat} (hm : Bytes m) (hd : Bytes data) :
+    Bytes (overwrite m off data) :=
+  Bytes_append.mpr ⟨Bytes_append.mpr ⟨Bytes_take hm _, hd⟩, Bytes_drop hm _⟩
+
+/-- memory after a complete read of `c` bytes into `N = ⌈c/8⌉` limbs whose first limb was zeroed:
+    the `N` limbs hold `8N - c` zero bytes followed by the data, the limbs above are untouched -/
+theorem mem_full {d1 : List Nat} (hL : Limbs d1) {N c : Nat} (hN : N = (c * 8 + 63) / 64) (hc : 0 < c)
+    (hA : N ≤ d1.length) {data : List Nat} (hlen : data.length = c) :
+    (bytesToLimbs (overwrite (limbsToBytes (d1.set 0 0)) (8 * N - c) data)).take N
+        = bytesToLimbs (List.replicate (8 * N - c) 0 ++ data) ∧
+    (bytesToLimbs (overwrite (limbsToBytes (d1.set 0 0)) (8 * N - c) data)).drop N = d1.drop N := by
+  have hN1 : 1 ≤ N := by omega
+  have hoff : 8 * N - c < 8 := by omega
+  cases d1 with
+  | nil => simp at hA; omega
+  | cons a t =>
+    have ht : Limbs t := (Limbs_cons.mp hL).2
+    have hdropL : Limbs ((a :: t).drop N) := Limbs_drop hL N
+    have hm : limbsToBytes ((a :: t).set 0 0) = List.replicate 8 0 ++ limbsToBytes t := by
+      simp [leBytes_zero]
+    have h1 : (limbsToBytes ((a :: t).set 0 0)).take (8 * N - c) = List.replicate (8 * N - c) 0 := by
+      rw [hm, List.take_append_of_le_length (by simp; omega), List.take_replicate]
+      congr 1; omega
+    have h2 : (limbsToBytes ((a :: t).set 0 0)).drop (8 * N - c + data.length) = limbsToBytes ((a :: t).drop N) := by
+      have e : 8 * N - c + data.length = 8 * N := by omega
+      rw [e, limbsToBytes_drop]
+      congr 1
+      obtain ⟨N', rfl⟩ : ∃ N', N = N' + 1 := ⟨N - 1, by omega⟩
+      simp
+    have hF : (List.replicate (8 * N - c) 0 ++ data).length = 8 * N := by simp; omega
+    have hov : overwrite (limbsToBytes ((a :: t).set 0 0)) (8 * N - c) data
+        = (List.replicate (8 * N - c) 0 ++ data) ++ limbsToBytes ((a :: t).drop N) := by
+      unfold overwrite; rw [h1, h2]
+    rw [hov, bytesToLimbs_append N _ _ hF, bytesToLimbs_limbsToBytes hdropL]
+    have hl := bytesToLimbs_length N _ hF
+    constructor
+    · rw [List.take_append_of_le_length (by omega), List.take_of_length_le (by omega)]
+    · rw [List.drop_append_of_le_length (by omega), List.drop_of_length_le (by omega)]; simp
+
+/-- memory after any (possibly short) read: same number of limbs, all limbs -/
+theorem mem_any {d1 : List Nat} {off : Nat} {data : List Nat} (hd : Bytes data)
+    (h : off + data.length ≤ 8 * d1.length) :
+    (bytesToLimbs (overwrite (limbsToBytes d1) off data)).length = d1.length ∧
+    Limbs (bytesToLimbs (overwrite (limbsToBytes d1) off data)) := by
+  have hl : (overwrite (limbsToBytes d1) off data).length = 8 * d1.length := by
+    rw [overwrite_length (by simpa using h)]; simp
+  exact ⟨bytesToLimbs_length _ _ hl, Limbs_bytesToLimbs _ _ hl (overwrite_bytes (limbsToBytes_bytes _) hd)⟩
+
+/-- `mpz_inp_raw_m` on a limb array whose first `N` limbs are the memory image `m` -/
+theorem inp_raw_m_spec (x : Mpz) (N : Nat) (m : List Nat) (hm : m.length = 8 * N) (hb : Bytes m)
+    (hd : x.d.take N = bytesToLimbs m) (hlen : x.d.length = x.alloc) (hN : N ≤ x.alloc) (hL : Limbs x.d)
+    (w ws : Nat) :
+    (inp_raw_m x ⟨w, ws, N⟩).WF ∧
+    (inp_raw_m x ⟨w, ws, N⟩).toInt = (if x.size ≥ 0 then (beVal m : Int) else -(beVal m : Int)) := by
+  have hbl := bytesToLimbs_length N m hm
+  set xp := revSwap (x.d.take N) with hxp
+  have hxp' : xp = ((bytesToLimbs m).map bswap).reverse := by rw [hxp, hd]; exact revSwap_eq _ _ rfl
+  have hxl : xp.length = N := by rw [hxp']; simp [hbl]
+  have hxL : Limbs xp := by rw [hxp']; exact Limbs_reverse.mpr (Limbs_map_bswap _)
+  have hxv : val xp = beVal m := by rw [hxp']; exact val_reverse_bswap N m hm hb
+  have hns := normSize_le xp
+  have hpre := normalize_prefix xp
+  obtain ⟨k, hk, htop⟩ := normalize_spec xp
+  have hlimbs : ∀ (s : Int), s.natAbs = normSize xp →
+      (xp ++ x.d.drop N).take s.natAbs = normalize xp := by
+    intro s hs; rw [hs, List.take_append_of_le_length (by omega), hpre]
+  have hdl : (xp ++ x.d.drop N).length = x.alloc := by simp [hxl]; omega
+  have hLd : Limbs (xp ++ x.d.drop N) := Limbs_append.mpr ⟨hxL, Limbs_drop hL _⟩
+  have htopnz : normSize xp ≠ 0 → (xp ++ x.d.drop N).getD (normSize xp - 1) 0 ≠ 0 := by
+    intro hne
+    have h1 : (xp ++ x.d.drop N).getD (normSize xp - 1) 0 = xp.getD (normSize xp - 1) 0 := by
+      simp only [List.getD_eq_getElem?_getD]; rw [List.getElem?_append_left (by omega)]
+    rw [h1, ← getLastD_take_getD (by omega) (by omega), hpre]
+    apply htop
+    intro he; unfold normSize at hne; rw [he] at hne; exact hne rfl
+  unfold inp_raw_m
+  simp only [← hxp]
+  by_cases hs : x.size ≥ 0
+  · simp only [hs, if_true]
+    refine ⟨⟨hdl, ?_, hLd, ?_⟩, ?_⟩
+    · simp [Mpz.abssize]; omega
+    · intro hne; simp only [Mpz.abssize, Int.natAbs_natCast]; exact htopnz (by simpa using hne)
+    · have : ¬ ((normSize xp : Int) < 0) := by omega
+      simp only [Mpz.toInt, this, if_false, Mpz.limbs, Mpz.abssize]
+      rw [hlimbs _ (by simp), val_normalize, hxv]
+  · simp only [hs, if_false]
+    refine ⟨⟨hdl, ?_, hLd, ?_⟩, ?_⟩
+    · simp [Mpz.abssize]; omega
+    · intro hne; simp only [Mpz.abssize, Int.natAbs_neg, Int.natAbs_natCast]; exact htopnz (by simpa using hne)
+    · simp only [Mpz.toInt, Mpz.limbs, Mpz.abssize]
+      rw [hlimbs _ (by simp), val_normalize, hxv]
+      by_cases h0 : normSize xp = 0
+      · have : val (normalize xp) = 0 := by
+          unfold normSize at h0; rw [List.eq_nil_of_length_eq_zero h0]; rfl
+        rw [val_normalize, hxv] at this
+        simp [h0, this]
+      · have : (-(normSize xp : Int) < 0) := by omega
+        simp [h0]
+
+/-- limbs announced by a header -/
+def rawN (h : List Nat) : Nat := ((csizeOf h).natAbs * 8 + 63) / 64
+/-- the size field set from the header before the data is read -/
+def rawSgn (h : List Nat) : Int := if csizeOf h ≥ 0 then (rawN h : Int) else -(rawN h : Int)
+/-- the limb array after `data` has been stored into the reallocated destination -/
+def rawMem (x : Mpz) (h : List Nat) (junk : Nat → Nat) (data : List Nat) : List Nat :=
+  bytesToLimbs (overwrite (limbsToBytes ((mpz_realloc x (rawN h) junk).d.set 0 0))
+    (8 * rawN h - (csizeOf h).natAbs) data)
+
+theorem inp_raw_p_zero (x : Mpz) (h : List Nat) (junk : Nat → Nat) (hc : (csizeOf h).natAbs = 0) :
+    inp_raw_p x h junk = ({ x with size := 0 }, ⟨0, 0, 0⟩) := by
+  have : csizeOf h = 0 := by omega
+  simp [inp_raw_p, this]
+
+theorem inp_raw_p_pos (x : Mpz) (h : List Nat) (junk : Nat → Nat) (hc : (csizeOf h).natAbs ≠ 0) :
+    inp_raw_p x h junk =
+      (⟨(mpz_realloc x (rawN h) junk).alloc, rawSgn h, (mpz_realloc x (rawN h) junk).d.set 0 0⟩,
+       ⟨8 * rawN h - (csizeOf h).natAbs, (csizeOf h).natAbs, rawN h⟩) := by
+  have hN : ((csizeOf h).natAbs * 8 + 63) / 64 ≠ 0 := by omega
+  simp [inp_raw_p, hN, rawN, rawSgn]
+
+theorem inp_raw_rd_short_hdr (fixed : Bool) (x : Mpz) (r : List Nat) (junk : Nat → Nat) (h : r.length < 4) :
+    inp_raw_rd fixed x r junk = (0, x, []) := by
+  simp [inp_raw_rd, fread_short h]
+
+theorem inp_raw_rd_zero (fixed : Bool) (x : Mpz) (r : List Nat) (junk : Nat → Nat) (h4 : 4 ≤ r.length)
+    (hc : (csizeOf (r.take 4)).natAbs = 0) :
+    inp_raw_rd fixed x r junk = (4, { x with size := 0 }, r.drop 4) := by
+  simp [inp_raw_rd, fread_ok h4, inp_raw_p_zero x _ junk hc]
+
+theorem inp_raw_rd_full (fixed : Bool) (x : Mpz) (r : List Nat) (junk : Nat → Nat) (h4 : 4 ≤ r.length)
+    (hc : (csizeOf (r.take 4)).natAbs ≠ 0) (hfull : 4 + (csizeOf (r.take 4)).natAbs ≤ r.length) :
+    inp_raw_rd fixed x r junk =
+      ((csizeOf (r.take 4)).natAbs + 4,
+       inp_raw_m ⟨(mpz_realloc x (rawN (r.take 4)) junk).alloc, rawSgn (r.take 4),
+                  rawMem x (r.take 4) junk ((r.drop 4).take (csizeOf (r.take 4)).natAbs)⟩
+         ⟨8 * rawN (r.take 4) - (csizeOf (r.take 4)).natAbs, (csizeOf (r.take 4)).natAbs, rawN (r.take 4)⟩,
+       (r.drop 4).drop (csizeOf (r.take 4)).natAbs) := by
+  have hfr : fread (r.drop 4) (csizeOf (r.take 4)).natAbs =
+      (true, (r.drop 4).take (csizeOf (r.take 4)).natAbs, (r.drop 4).drop (csizeOf (r.take 4)).natAbs) :=
+    fread_ok (by simp; omega)
+  simp [inp_raw_rd, fread_ok h4, inp_raw_p_pos x _ junk hc, hc, hfr, rawMem]
+
+theorem inp_raw_rd_short_data (fixed : Bool) (x : Mpz) (r : List Nat) (junk : Nat → Nat) (h4 : 4 ≤ r.length)
+    (hc : (csizeOf (r.take 4)).natAbs ≠ 0) (hshort : ¬ 4 + (csizeOf (r.take 4)).natAbs ≤ r.length) :
+    inp_raw_rd fixed x r junk =
+      (0, ⟨(mpz_realloc x (rawN (r.take 4)) junk).alloc, if fixed then 0 else rawSgn (r.take 4),
+           rawMem x (r.take 4) junk (r.drop 4)⟩, []) := by
+  have hfr : fread (r.drop 4) (csizeOf (r.take 4)).natAbs = (false, r.drop 4, []) :=
+    fread_short (by simp; omega)
+  cases fixed <;> simp [inp_raw_rd, fread_ok h4, inp_raw_p_pos x _ junk hc, hc, hfr, rawMem]
+
+/-- full functional description of `mpz_inp_raw` (repaired code) on an arbitrary byte stream -/
+theorem inp_raw_rd_spec (x : Mpz) (hx : x.WF) (r : List Nat) (hr : Bytes r) (junk : Nat → Nat)
+    (hj : ∀ i, junk i < B) :
+    (inp_raw_rd true x r junk).2.1.WF ∧
+    (if 4 ≤ r.length ∧ 4 + (csizeOf (r.take 4)).natAbs ≤ r.length then
+       (inp_raw_rd true x r junk).1 = (csizeOf (r.take 4)).natAbs + 4 ∧
+       (inp_raw_rd true x r junk).2.2 = r.drop (4 + (csizeOf (r.take 4)).natAbs) ∧
+       (inp_raw_rd true x r junk).2.1.toInt =
+         (if csizeOf (r.take 4) ≥ 0 then (beVal ((r.drop 4).take (csizeOf (r.take 4)).natAbs) : Int)
+          else -(beVal ((r.drop 4).take (csizeOf (r.take 4)).natAbs) : Int))
+     else (inp_raw_rd true x r junk).1 = 0 ∧ (inp_raw_rd true x r junk).2.2 = []) := by
+  by_cases h4 : 4 ≤ r.length
+  · by_cases hc0 : (csizeOf (r.take 4)).natAbs = 0
+    · -- zero size: nothing more is read
+      rw [inp_raw_rd_zero true x r junk h4 hc0]
+      obtain ⟨h1, h2, h3, _⟩ := hx
+      refine ⟨⟨h1, by simp [Mpz.abssize], h3, by simp⟩, ?_⟩
+      have : csizeOf (r.take 4) = 0 := by omega
+      simp [h4, this, Mpz.toInt, Mpz.limbs, Mpz.abssize, beVal]
+    · obtain ⟨ra, rn, rl⟩ := realloc_spec hx (rawN (r.take 4)) hj
+      have hNdef : rawN (r.take 4) = ((csizeOf (r.take 4)).natAbs * 8 + 63) / 64 := rfl
+      generalize hc : (csizeOf (r.take 4)).natAbs = c at *
+      generalize hN : rawN (r.take 4) = N at *
+      have hN1 : 1 ≤ N := by omega
+      have hsetlen : ((mpz_realloc x N junk).d.set 0 0).length = (mpz_realloc x N junk).alloc := by simp [ra]
+      by_cases hfull : 4 + c ≤ r.length
+      · -- all data present
+        have e := inp_raw_rd_full true x r junk h4 (by rw [hc]; exact hc0) (by rw [hc]; exact hfull)
+        rw [hc, hN] at e
+        rw [e]
+        have hdl : ((r.drop 4).take c).length = c := by simp; omega
+        have hdb : Bytes ((r.drop 4).take c) := Bytes_take (Bytes_drop hr 4) c
+        obtain ⟨mt, md⟩ := mem_full rl hNdef (by omega) (by omega) hdl
+        have hany := mem_any (d1 := (mpz_realloc x N junk).d.set 0 0) (off := 8 * N - c) hdb (by simp; omega)
+        have hmem : rawMem x (r.take 4) junk ((r.drop 4).take c)
+            = bytesToLimbs (overwrite (limbsToBytes ((mpz_realloc x N junk).d.set 0 0)) (8 * N - c) ((r.drop 4).take c)) := by
+          unfold rawMem; rw [hN, hc]
+        have hm : (List.replicate (8 * N - c) 0 ++ (r.drop 4).take c).length = 8 * N := by simp; omega
+        have hmb : Bytes (List.replicate (8 * N - c) 0 ++ (r.drop 4).take c) :=
+          Bytes_append.mpr ⟨Bytes_replicate_zero _, hdb⟩
+        obtain ⟨wf, ti⟩ := inp_raw_m_spec
+          ⟨(mpz_realloc x N junk).alloc, rawSgn (r.take 4), rawMem x (r.take 4) junk ((r.drop 4).take c)⟩ N _
+          hm hmb (by rw [hmem]; exact mt) (by rw [hmem]; simp [hany.1, hsetlen]) (by simpa using rn)
+          (by rw [hmem]; exact hany.2) (8 * N - c) c
+        refine ⟨wf, ?_⟩
+        rw [if_pos ⟨h4, hfull⟩]
+        refine ⟨rfl, by simp [List.drop_drop], ?_⟩
+        simp only at ti ⊢
+        rw [ti, beVal_append, beVal_replicate_zero]
+        have hsg : (rawSgn (r.take 4) ≥ 0) ↔ csizeOf (r.take 4) ≥ 0 := by
+          unfold rawSgn; split <;> omega
+        simp only [hsg]
+        simp
+      · -- short read of the limb data
+        have e := inp_raw_rd_short_data true x r junk h4 (by rw [hc]; exact hc0) (by rw [hc]; exact hfull)
+        rw [hN] at e
+        rw [e]
+        have hdb : Bytes (r.drop 4) := Bytes_drop hr 4
+        have hany := mem_any (d1 := (mpz_realloc x N junk).d.set 0 0) (off := 8 * N - c) hdb (by simp; omega)
+        have hmem : rawMem x (r.take 4) junk (r.drop 4)
+            = bytesToLimbs (overwrite (limbsToBytes ((mpz_realloc x N junk).d.set 0 0)) (8 * N - c) (r.drop 4)) := by
+          unfold rawMem; rw [hN, hc]
+        refine ⟨⟨by rw [hmem]; simp [hany.1, hsetlen], by simp [Mpz.abssize], by rw [hmem]; exact hany.2, by simp⟩, ?_⟩
+        rw [if_neg (by omega)]
+        exact ⟨rfl, rfl⟩
+  · -- short read of the header: destination untouched
+    rw [inp_raw_rd_short_hdr true x r junk (by omega)]
+    refine ⟨hx, ?_⟩
+    rw [if_neg (by omega)]
+    exact ⟨rfl, rfl⟩
+
+
+/-! ### header and stream facts used by the property theorems -/
+
+theorem outRawBytes_bytes (v : Int) : Bytes (outRawBytes v) :=
+  Bytes_append.mpr ⟨beBytes_bytes _ _, beBytes_bytes _ _⟩
+
+theorem csizeOf_hdrBytes (s : Int) (h1 : -2147483648 ≤ s) (h2 : s < 2147483648) : csizeOf (hdrBytes s) = s := by
+  unfold hdrBytes csizeOf
+  generalize hm : (s % 4294967296).toNat = m
+  have hm4 : m < 4294967296 := by omega
+  simp only [beBytes, leBytes, List.reverse_cons, List.reverse_nil, List.nil_append, List.cons_append,
+    List.getD_cons_zero, List.getD_cons_succ]
+  have hc : ((m / 256 / 256 / 256 % 256 * 256 + m / 256 / 256 % 256) * 256 + m / 256 % 256) * 256 + m % 256 = m := by
+    omega
+  rw [hc]
+  split <;> omega
+
+/-- the leading byte of the minimal big-endian image is not zero -/
+theorem beBytes_head_ne_zero {v : Nat} (hv : v ≠ 0) : (beBytes (byteLen v) v).headD 0 ≠ 0 := by
+  have hbl : 0 < byteLen v := by unfold byteLen; have := bitLen_pos hv; omega
+  obtain ⟨n, hn⟩ : ∃ n, byteLen v = n + 1 := ⟨byteLen v - 1, by omega⟩
+  rw [hn]
+  have : beBytes (n + 1) v = (v / 256 ^ n % 256) :: beBytes n v := by
+    unfold beBytes; rw [leBytes_add n 1 v]; simp [leBytes]
+  rw [this]; simp only [List.headD_cons]
+  -- 256^n ≤ v < 256^(n+1)
+  have hlt := lt_pow_byteLen v
+  rw [hn] at hlt
+  have hge : 256 ^ n ≤ v := by
+    have h2 := two_pow_le_of_bitLen hv
+    have : 8 * n ≤ bitLen v - 1 := by unfold byteLen at hn; omega
+    calc 256 ^ n = 2 ^ (8 * n) := by rw [show (256 : Nat) = 2 ^ 8 by norm_num, ← pow_mul]
+      _ ≤ 2 ^ (bitLen v - 1) := Nat.pow_le_pow_right (by decide) this
+      _ ≤ v := h2
+  have hq : 0 < v / 256 ^ n := Nat.div_pos hge (pow_pos (by decide) n)
+  have hq2 : v / 256 ^ n < 256 := by
+    rw [Nat.div_lt_iff_lt_mul (pow_pos (by decide) n)]; rw [pow_succ] at hlt; linarith
+  rw [Nat.mod_eq_of_lt hq2]; omega
+
+/-- the stream `outRawBytes v ++ rest` seen through the header decoder -/
+theorem outRaw_parts (v : Int) (hv : byteLen v.natAbs < 2 ^ 31) (rest : List Nat) :
+    csizeOf ((outRawBytes v ++ rest).take 4) = (if v < 0 then -(byteLen v.natAbs : Int) else byteLen v.natAbs) ∧
+    (if (if v < 0 then -(byteLen v.natAbs : Int) else (byteLen v.natAbs : Int)) ≥ 0 then
+        (beVal (((outRawBytes v ++ rest).drop 4).take
+          (if v < 0 then -(byteLen v.natAbs : Int) else (byteLen v.natAbs : Int)).natAbs) : Int)
+      else -(beVal (((outRawBytes v ++ rest).drop 4).take
+          (if v < 0 then -(byteLen v.natAbs : Int) else (byteLen v.natAbs : Int)).natAbs) : Int)) = v ∧
+    (outRawBytes v ++ rest).drop (4 + (if v < 0 then -(byteLen v.natAbs : Int) else (byteLen v.natAbs : Int)).natAbs) = rest ∧
+    (if v < 0 then -(byteLen v.natAbs : Int) else (byteLen v.natAbs : Int)).natAbs = byteLen v.natAbs := by
+  set n := byteLen v.natAbs with hn
+  have hna : (if v < 0 then -(n : Int) else (n : Int)).natAbs = n := by split <;> omega
+  have hh : (hdrBytes (if v < 0 then -(n : Int) else (n : Int))).length = 4 := by simp [hdrBytes]
+  have hd : (beBytes n v.natAbs).length = n := by simp
+  have e : outRawBytes v ++ rest = hdrBytes (if v < 0 then -(n : Int) else (n : Int)) ++ (beBytes n v.natAbs ++ rest) := by
+    simp [outRawBytes, ← hn]
+  have ht : (outRawBytes v ++ rest).take 4 = hdrBytes (if v < 0 then -(n : Int) else (n : Int)) := by
+    rw [e, List.take_append_of_le_length (by omega), List.take_of_length_le (by omega)]
+  have hdrop : (outRawBytes v ++ rest).drop 4 = beBytes n v.natAbs ++ rest := by
+    rw [e, List.drop_append_of_le_length (by omega), List.drop_of_length_le (by omega)]; simp
+  have hdata : ((outRawBytes v ++ rest).drop 4).take n = beBytes n v.natAbs := by
+    rw [hdrop, List.take_append_of_le_length (by omega), List.take_of_length_le (by omega)]
+  have hval : beVal (beBytes n v.natAbs) = v.natAbs := by
+    rw [beVal_beBytes]; exact Nat.mod_eq_of_lt (lt_pow_byteLen _)
+  have hn31 : n < 2147483648 := by simpa using hv
+  refine ⟨?_, ?_, ?_, hna⟩
+  · rw [ht]; apply csizeOf_hdrBytes <;> split <;> omega
+  · rw [hna, hdata, hval]
+    by_cases hneg : v < 0
+    · simp only [hneg, if_true]
+      have hnz : n ≠ 0 := by
+        intro h0
+        have : v.natAbs = 0 := by
+          have := lt_pow_byteLen v.natAbs; rw [← hn, h0] at this; simpa using this
+        omega
+      have : ¬ (-(n : Int) ≥ 0) := by omega
+      simp only [this, if_false]; omega
+    · simp only [hneg, if_false]
+      have : ((n : Int) ≥ 0) := by omega
+      simp only [this, if_true]; omega
+  · rw [hna, e, ← List.append_assoc, List.drop_append_of_le_length (by simp [hh]), List.drop_of_length_le (by simp [hh])]
+    simp
+
 end Mpir.Io
